@@ -3,10 +3,12 @@ package main
 import (
 	"bytes"
 	"fmt"
+	"strings"
 
 	"github.com/cockroachdb/pebble/vfs"
 	"github.com/jamf/regatta/regattapb"
 	"github.com/jamf/regatta/storage/table/fsm"
+	"github.com/jamf/regatta/util/iter"
 )
 
 func init() { register("c09", runC09) }
@@ -284,5 +286,122 @@ func runC09(args []string) error {
 		return err
 	}
 	sum.CasesFiles = append(names, znames...)
+	if err := runC09Lazy(sum); err != nil {
+		return err
+	}
 	return sum.write(rf.Out, "c09")
+}
+
+// runC09Lazy: range reads are lazy sequences consumed by the server while the table keeps changing. (a) a streamed
+// read of several messages with a write (touching the first and the last key of the range) applied between two
+// messages must still be ONE point-in-time view; (b) a sequence obtained, then other commands applied (they reuse the
+// pooled key buffers), then consumed, must still respect its bounds.
+func runC09Lazy(sum *Summary) error {
+	join := func(chunks []*regattapb.ResponseOp_Range) string {
+		var sb strings.Builder
+		for _, ch := range chunks {
+			for _, kv := range ch.Kvs {
+				c := byte('-')
+				if len(kv.Value) > 0 {
+					c = kv.Value[0]
+				}
+				fmt.Fprintf(&sb, "%s=%c%d;", kv.Key, c, len(kv.Value))
+			}
+		}
+		return sb.String()
+	}
+	// (a)
+	{
+		f, _, err := newRealFSM(vfs.NewMem(), fsm.RecoveryTypeSnapshot)
+		if err != nil {
+			return err
+		}
+		var es []gEntry
+		for i := 0; i < 7; i++ {
+			es = append(es, gEntry{Idx: uint64(i + 1), Cmd: gCmd{Kind: regattapb.Command_PUT, K: []byte(fmt.Sprintf("big/%02d", i)), V: bytes.Repeat([]byte{'o'}, 1300*1024)}})
+		}
+		if _, _, err := f.apply(es); err != nil {
+			return err
+		}
+		q := gRange{Key: []byte("big/"), End: []byte("big0")}
+		oldC, err := f.iterate(q)
+		if err != nil {
+			return err
+		}
+		v, err := f.f.Lookup(fsm.IteratorRequest{RangeOp: q.pb()})
+		if err != nil {
+			return err
+		}
+		pull, stop := iter.Pull(v.(iter.Seq[*regattapb.ResponseOp_Range]))
+		var got []*regattapb.ResponseOp_Range
+		first, ok := pull()
+		if ok {
+			got = append(got, first)
+		}
+		if _, _, err := f.apply([]gEntry{{Idx: 8, Cmd: gCmd{Kind: regattapb.Command_TXN, Succ: []gOp{
+			{Kind: 1, K: []byte("big/00"), V: bytes.Repeat([]byte{'n'}, 1300*1024)}, {Kind: 1, K: []byte("big/06"), V: bytes.Repeat([]byte{'n'}, 1300*1024)}}}}}); err != nil {
+			return err
+		}
+		for ok {
+			var ch *regattapb.ResponseOp_Range
+			ch, ok = pull()
+			if ok {
+				got = append(got, ch)
+			}
+		}
+		stop()
+		newC, err := f.iterate(q)
+		if err != nil {
+			return err
+		}
+		sum.Evaluations++
+		sum.hist("lazy").Inc("write between two messages of a stream")
+		if g := join(got); g != join(oldC) && g != join(newC) {
+			sum.violate(200001, "a streamed range read mixes two states of the table", map[string]any{"scenario": "7 pairs of 1.3 MiB; first message consumed; one transaction overwrites the first and the last key; rest consumed", "messages": len(got)},
+				fmt.Sprintf("stream %s; before the write %s; after it %s", g, join(oldC), join(newC)))
+		}
+		f.close()
+	}
+	// (b)
+	{
+		f, _, err := newRealFSM(vfs.NewMem(), fsm.RecoveryTypeSnapshot)
+		if err != nil {
+			return err
+		}
+		var es []gEntry
+		for i := 0; i < 30; i++ {
+			es = append(es, gEntry{Idx: uint64(i + 1), Cmd: gCmd{Kind: regattapb.Command_PUT, K: []byte(fmt.Sprintf("key/%02d", i)), V: []byte("v")}})
+		}
+		if _, _, err := f.apply(es); err != nil {
+			return err
+		}
+		for n, q := range []gRange{{Key: []byte("key/10"), End: []byte("key/20")}, {Key: []byte("key/05"), End: []byte{0}}, {Key: []byte("key/10"), End: []byte("key/20"), KeysOnly: true, Limit: 4}} {
+			want, err := f.iterate(q)
+			if err != nil {
+				return err
+			}
+			v, err := f.f.Lookup(fsm.IteratorRequest{RangeOp: q.pb()})
+			if err != nil {
+				return err
+			}
+			// other traffic between obtaining and consuming the sequence: single puts and a lookup, outside the range
+			if _, _, err := f.apply([]gEntry{{Idx: uint64(100 + 2*n), Cmd: gCmd{Kind: regattapb.Command_PUT, K: []byte("aaa"), V: []byte("x")}},
+				{Idx: uint64(101 + 2*n), Cmd: gCmd{Kind: regattapb.Command_PUT, K: []byte("key/03"), V: []byte("v")}}}); err != nil {
+				return err
+			}
+			_, _ = f.read(gRange{Key: []byte("key/01")})
+			got := iter.Collect(v.(iter.Seq[*regattapb.ResponseOp_Range]))
+			sum.Evaluations++
+			sum.hist("lazy").Inc("commands applied between obtaining and consuming a sequence")
+			if q.End[0] == 0 { // the open-ended range sees the new key or not: compare from the lower bound on
+				want, _ = f.iterate(q)
+			}
+			if join(got) != join(want) {
+				sum.violate(200010+n, "a range read consumed after other commands were applied does not respect its bounds", map[string]any{"request": q.String()},
+					fmt.Sprintf("got %s want %s", join(got), join(want)))
+			}
+		}
+		f.close()
+	}
+	return nil
 }
